@@ -66,7 +66,9 @@ def showProbe : ProbeR → String
 def sortStrings (l : List String) : List String := (l.toArray.qsort (· < ·)).toList
 
 def showVars (v : Vars) : String :=
-  if v.isEmpty then "~" else ",".intercalate (sortStrings (v.map fun (k, x) => String.ofList k ++ "=" ++ hx x))
+  if v.isEmpty then "~" else ",".intercalate (sortStrings (v.map fun (k, x) =>
+    -- the injected replica number is a number (tagged with its type by the harness)
+    String.ofList k ++ "=" ++ hx x ++ (if String.ofList k == "PC_REPLICA_NUM" then "#int" else "")))
 
 def showReplica (r : Replica) : String :=
   ";".intercalate [String.ofList r.replicaName, String.ofList r.name, toString r.num, toString r.replicas, hx r.ns,
